@@ -184,8 +184,79 @@ func runCell(c Cell) (*ev.Failure, bool) {
 		return sequence(c)
 	case "collector_bad_ca":
 		return badClientCA(c)
+	case "resume":
+		return resumedSession(c)
 	}
 	return plaintext(c)
+}
+
+// resumedSession: a client that keeps a TLS session cache authenticates to collector A (client CA:
+// the trusted one) with a certificate of that CA. A is stopped; collector B serves the same server
+// certificate and key (a restart, another replica) with another client CA. The client connects again
+// under the same server name, offering whatever session it kept. B delivers messages only from peers
+// that hold a certificate of B's CA: this one does not (its only certificate is of A's CA), so nothing
+// it sends may be delivered, resumed session or not.
+func resumedSession(c Cell) (*ev.Failure, bool) {
+	in := collector.CollectorInput{Address: "127.0.0.1:0", Protocol: "tcp", MaxBufferSize: 65535, IsEncrypted: true, ServerCert: collectorCert.CertPEM, ServerKey: collectorCert.KeyPEM, CACert: caGood.CertPEM}
+	colA, err := startCollector(in)
+	if err != nil {
+		return envFail(err), false
+	}
+	roots := x509.NewCertPool()
+	roots.AppendCertsFromPEM(caGood.CertPEM)
+	kp, err := tls.X509KeyPair(clientCerts["trusted"].CertPEM, clientCerts["trusted"].KeyPEM)
+	if err != nil {
+		colA.cp.Stop()
+		return envFail(err), false
+	}
+	cfg := &tls.Config{RootCAs: roots, ServerName: "localhost", MinVersion: tls.VersionTLS12, MaxVersion: versions[c.MaxVersion], Certificates: []tls.Certificate{kp}, ClientSessionCache: tls.NewLRUClientSessionCache(8)}
+	conn, err := tls.DialWithDialer(&net.Dialer{Timeout: 5 * time.Second}, "tcp", colA.cp.GetAddress().String(), cfg)
+	if err != nil {
+		colA.cp.Stop()
+		return ev.Failf("harness: a correctly configured client cannot connect: %v", err), false
+	}
+	conn.Write(ref.TemplateMessage(ref.Header{Domain: 4100}, ref.Template{ID: 256, Fields: tplFields}))
+	okA := colA.waitDelivered(4100, 10*time.Second)
+	conn.SetReadDeadline(time.Now().Add(300 * time.Millisecond))
+	conn.Read(make([]byte, 1)) // lets the client take the session tickets of TLS 1.3
+	conn.Close()
+	colA.cp.Stop()
+	if !okA {
+		return nil, false
+	}
+	in.CACert = caOther.CertPEM
+	colB, err := startCollector(in)
+	if err != nil {
+		return envFail(err), false
+	}
+	defer colB.cp.Stop()
+	const domain = 4243
+	resumed := false
+	if conn, err = tls.DialWithDialer(&net.Dialer{Timeout: 5 * time.Second}, "tcp", colB.cp.GetAddress().String(), cfg); err == nil {
+		resumed = conn.ConnectionState().DidResume
+		conn.Write(ref.TemplateMessage(ref.Header{Domain: domain}, ref.Template{ID: 256, Fields: tplFields}))
+		conn.SetReadDeadline(time.Now().Add(500 * time.Millisecond))
+		conn.Read(make([]byte, 1))
+		conn.Close()
+	}
+	// a client of B's own CA proves that B listens and has had time to process
+	good := &tls.Config{RootCAs: roots, ServerName: "localhost", MinVersion: tls.VersionTLS12}
+	okp, _ := tls.X509KeyPair(clientCerts["other_ca"].CertPEM, clientCerts["other_ca"].KeyPEM)
+	good.Certificates = []tls.Certificate{okp}
+	gc, err := tls.Dial("tcp", colB.cp.GetAddress().String(), good)
+	if err != nil {
+		return ev.Failf("harness: a client with a certificate of the second collector's CA cannot connect: %v", err), false
+	}
+	gc.Write(ref.TemplateMessage(ref.Header{Domain: 999}, ref.Template{ID: 256, Fields: tplFields}))
+	okSentinel := colB.waitDelivered(999, 10*time.Second)
+	gc.Close()
+	if !okSentinel {
+		return nil, false
+	}
+	if colB.delivered(domain) {
+		return ev.Failf("a collector whose client CA is B delivered a message from a client whose only certificate was issued by CA A: the client had authenticated to an earlier collector with the same server key pair and client CA A, kept its TLS session and connected again (session resumed: %v, TLS %s)", resumed, c.MaxVersion), true
+	}
+	return nil, true
 }
 
 // leafFor returns the server certificate of a cell. Two kinds are minted when the cell runs: one
@@ -923,6 +994,7 @@ func cells() []Cell {
 			}
 		}
 	}
+	out = append(out, Cell{Dir: "resume", Proto: "tls", MaxVersion: "1.2"}, Cell{Dir: "resume", Proto: "tls", MaxVersion: "1.3"})
 	for _, form := range []string{"bom_before_pem", "der_not_pem", "empty", "trusted_certificate", "garbage"} {
 		for _, cc := range []string{"none", "other_ca"} {
 			out = append(out, Cell{Dir: "collector_bad_ca", Proto: "tls", ClientCert: cc, ClientCA: true, Plain: form})
